@@ -94,3 +94,26 @@ func init() {
 		return call(fr.i, fr, 0, pkg.Func("Wrap"), []value{args[0], args[1]})
 	}
 }
+
+func init() {
+	E := externals
+	// protobuf text rendering: opaque text (contains spaces and quotes; never a valid address)
+	compact := func(fr *frame, args []value) value {
+		m := args[0].(iface)
+		if m.t == nil {
+			return "<nil>"
+		}
+		name, _ := fr.i.sess.protoNameOf(m.t)
+		return "<proto text of " + name + " >"
+	}
+	E["github.com/cosmos/gogoproto/proto.CompactTextString"] = compact
+	E["github.com/cosmos/gogoproto/proto.MarshalTextString"] = compact
+	E["github.com/cosmos/gogoproto/proto.EnumName"] = func(fr *frame, args []value) value {
+		m, _ := args[0].(map[value]value)
+		k := args[1]
+		if s, ok := m[k]; ok {
+			return s
+		}
+		return "UNKNOWN_ENUM"
+	}
+}
